@@ -211,8 +211,8 @@ def dataFields (dt : DataType) (tr : Transform) (f : GridFun) :
     match applyTransform tr f.centerValues with
     | none => .error .otherError
     | some t =>
-      -- complex data is NOT wrapped in a one-element list: meshio sees one "block" per element
-      if t.isComplex then .ok ([], [("real", t.re.map Block.vec), ("imag", t.im.map Block.vec)])
+      -- every data array is wrapped into a one-block list (`_np.array([...])`)
+      if t.isComplex then .ok ([], [("real", [.mat t.re]), ("imag", [.mat t.im])])
       else .ok ([], [("data", [.mat t.re])])
   | _ => .error .valueError
 
